@@ -198,6 +198,10 @@ func ahtHistory(r *vk.Run, maxN int, withProofs bool) error {
 		ci, ip := class(func() ([]dig, error) { return t.InclusionProof(i, j) })
 		cc, cp := class(func() ([]dig, error) { return t.ConsistencyProof(i, j) })
 		edges = append(edges, fmt.Sprintf("(%d, %d, %d, %d)", i, j, ci, cc))
+		if ci != 1 || cc != 1 {
+			// none of these argument pairs satisfies 1 <= i <= j <= size
+			r.Finding(fmt.Sprintf("AHtree proof generators on illegal arguments i=%d j=%d (size %d): InclusionProof outcome %d, ConsistencyProof outcome %d (0 = a proof, 1 = error, 2 = panic)", i, j, n, ci, cc))
+		}
 		if ci == 0 {
 			mip = append(mip, fmt.Sprintf("(%d, %d, %s)", i, j, look(ip)))
 		}
